@@ -97,9 +97,7 @@ func checkC18(t *testing.T, c C18Case) Verdict {
 		if wantDefault && act != flyt.DefaultAction {
 			return bad("C18:not-default", "post returned %q but run reported %q, want %q", c.PostAct, act, flyt.DefaultAction)
 		}
-		if !wantDefault && string(act) != c.PostAct {
-			return bad("C18:action-changed", "post returned %q but run reported %q", c.PostAct, act)
-		}
+		// (that a custom action is reported unchanged is C01's / C10's clause)
 		return ok(true, append(cls, "direct")...)
 	}
 	sentinel, other := &markNode{}, &markNode{}
@@ -108,6 +106,10 @@ func checkC18(t *testing.T, c C18Case) Verdict {
 	flow.Connect(node, "custom", other)
 	if err := flow.Run(ctx, flyt.NewSharedStore()); err != nil {
 		return ok(false, append(cls, "run-fails")...)
+	}
+	if !wantDefault {
+		// a custom action: which edge it selects is C01's / C03's / C10's business
+		return ok(false, append(cls, "in-flow", "custom-action")...)
 	}
 	if wantDefault != (sentinel.ran == 1) {
 		return bad(fmt.Sprintf("C18:default-edge:%s,n=%d", c.Node, c.BatchN), "%s node whose post returned %q inside a flow: default-connected successor ran %d times (want %v); other successor ran %d times", c.Node, c.PostAct, sentinel.ran, wantDefault, other.ran)
